@@ -20,6 +20,7 @@ Choice points (index 0 = nominal answer):
               taken at every sleep of the worker while a job is queued)
     account : SLURM  COMPLETED 0:0 | FAILED 1:0 | CANCELLED+ | TIMEOUT | PREEMPTED | RUNNING | PENDING | (empty)
               SGE    failed 0/exit 0 | failed 0/exit 1 | failed 100 (evicted) | failed 37 (h_rt) | "not found" | (empty)
+              (asked again about the same life of the job, the nominal answer is the record given before)
 A requeue (scontrol requeue / a second qsub) starts a new life of the job.  All answer sequences whose first DEPTH
 answers are arbitrary and whose remaining answers are nominal are enumerated by depth-first search over the real
 executions (the next question is whatever the worker asks next), for every user-option configuration.
@@ -190,7 +191,7 @@ class Fake:
         if a == "ok":
             jid = str(self.next_id)
             self.next_id += 1
-            self.lives[jid] = dict(id=jid, gone=False, ran=False, argv=cmd)
+            self.lives[jid] = dict(id=jid, gone=False, ran=False, argv=cmd, record=None)
             self.current = jid
         self.transcript.append(dict(q="submit", ans=a, id=jid, argv=cmd))
         if a == "ok":
@@ -198,6 +199,22 @@ class Fake:
         if a == "rc1":
             return 1, "", f"{cmd[0]}: error: Batch job submission failed: Invalid account or partition specified\n"
         return 0, "", ""
+
+    def _account(self, life, known=True):
+        """accounting choice point.  The record of a finished job does not change by itself: once a deciding answer
+        was given for this life, repeating it is the nominal answer (the others stay enumerable)."""
+        if not known:
+            a = "NOTFOUND"  # SGE: the accounting file only knows jobs that left the queue
+        else:
+            alts = list(ACCT[self.kind])
+            if life["record"]:
+                alts.remove(life["record"])
+                alts.insert(0, life["record"])
+            a = self.choose("acct", alts)
+            if a not in R.SILENT:
+                life["record"] = a
+        self.transcript.append(dict(q="acct", id=life["id"], ans=a))
+        return a
 
     def _life(self, cmd, jid):
         if jid not in self.lives:
@@ -221,9 +238,7 @@ class Fake:
             return 0, f"{life['id']:>18}     debug     main     user {st:>2}       0:00      1 (None)\n", ""
         if prog == "sacct":
             jid = cmd[cmd.index("-j") + 1]
-            self._life(cmd, jid)
-            a = self.choose("acct", ACCT["slurm"])
-            self.transcript.append(dict(q="acct", id=jid, ans=a))
+            a = self._account(self._life(cmd, jid))
             if a == "MISSING":
                 return 0, "", ""
             state = "CANCELLED+" if a == "CANCELLED" else a
@@ -231,7 +246,7 @@ class Fake:
             return 0, f"{jid:<12} {state:>10} {code:>8} \n", ""
         if prog == "scontrol" and cmd[1] == "requeue":
             life = self._life(cmd, cmd[2])
-            life.update(gone=False, ran=False)
+            life.update(gone=False, ran=False, record=None)
             self.transcript.append(dict(q="requeue", id=cmd[2]))
             return 0, "", ""
         raise FakeBug(f"unsupported command {cmd}")
@@ -255,11 +270,7 @@ class Fake:
         if prog == "qacct":
             jid = cmd[cmd.index("-j") + 1]
             life = self._life(cmd, jid)
-            if not life["gone"]:
-                a = "NOTFOUND"  # the accounting file only knows finished jobs
-            else:
-                a = self.choose("acct", ACCT["sge"])
-            self.transcript.append(dict(q="acct", id=jid, ans=a))
+            a = self._account(life, known=life["gone"])
             if a == "MISSING":
                 return 0, "", ""
             if a == "NOTFOUND":
